@@ -107,6 +107,7 @@ type vExec struct {
 	runCtx  context.Context
 	stopRun context.CancelFunc
 	free    chan struct{} // closed when the gates are switched off
+	fsh     bool
 }
 
 func (ex *vExec) ms() int64 { return time.Since(ex.t0).Milliseconds() }
@@ -181,7 +182,7 @@ func (ex *vExec) onHook(r *vRole, ev string, a, b uint64, x any) {
 			r.early = r.tmo - r.leftT.Sub(r.selT) // a timeout before the timeout has elapsed
 		}
 	}
-	if !ex.gating.Load() || vPass[ev] {
+	if !ex.gating.Load() || vPass[ev] || (ev == "smh.send" && ex.fsh) {
 		r.cond.Broadcast()
 		r.mu.Unlock()
 		return
@@ -276,14 +277,18 @@ type vScript struct {
 	NW       int     `json:"nw"`
 	Strategy string  `json:"strategy"`
 	Rtt      []int   `json:"rtt"`
-	Steps    []vStep `json:"steps"`
+	// Fsh: the script comes from the variant in which SetMasterHead publishes after releasing the connection lock
+	// (FixSetHead). There the hook smh.send is not a gate (it sits before the unlock; parking there would hold the
+	// lock the variant has already released) and the send happens by itself as soon as the channel has room.
+	Fsh   bool    `json:"fsh"`
+	Steps []vStep `json:"steps"`
 }
 
 const vInf = 1000000000
 
 type divergence struct {
 	step int
-	kind string // "maporder", "overrun", "position", "state"
+	kind string // "maporder", "overrun", "timerfirst", "position", "state"
 	why  string
 }
 
@@ -291,7 +296,7 @@ func (d *divergence) Error() string { return fmt.Sprintf("step %d: %s: %s", d.st
 
 // ---------------------------------------------------------------- the replayer
 func newExec(sc *vScript, U time.Duration) *vExec {
-	ex := &vExec{id: sc.ID, U: U, slack: U / 2}
+	ex := &vExec{id: sc.ID, U: U, slack: U, fsh: sc.Fsh}
 	ex.p, ex.conns = vNewPool(sc.NC, sc.Strategy, sc.Rtt, time.Hour)
 	ex.run = newRole(ex, "run")
 	for k := 1; k <= sc.NC; k++ {
@@ -470,11 +475,14 @@ func locRun(o *vObs) string {
 	return "ret" // idle: waiting for the next command
 }
 
-func locConn(o *vObs, i int) string {
+func locConn(o *vObs, i int, fsh bool) string {
 	switch o.Cpc[i] {
 	case "locked":
 		return "@smh.locked"
 	case "send":
+		if fsh { // lock released, waiting for room in the update channel
+			return "blocked"
+		}
 		return "@smh.send"
 	}
 	return "ret"
@@ -484,7 +492,11 @@ func (ex *vExec) settleRole(step int, r *vRole, loc string, d time.Duration) *di
 	switch {
 	case strings.HasPrefix(loc, "@"):
 		if !ex.awaitAt(r, loc[1:], d) {
-			return &divergence{step, "position", fmt.Sprintf("%s expected parked at %s, is %s", r.name, loc[1:], r.where())}
+			kind := "position"
+			if loc != "@wait.timeout" && r.where() == "@wait.timeout" {
+				kind = "timerfirst"
+			}
+			return &divergence{step, kind, fmt.Sprintf("%s expected parked at %s, is %s", r.name, loc[1:], r.where())}
 		}
 	case loc == "ret":
 		if !r.await(d, func() bool { return r.ret && r.at == "" }) {
@@ -494,9 +506,10 @@ func (ex *vExec) settleRole(step int, r *vRole, loc string, d time.Duration) *di
 		if !r.await(d, func() bool { return r.inSel && r.at == "" && !r.ret }) {
 			kind := "position"
 			if r.where() == "@wait.timeout" {
-				// the real timer fired before the model clock got there: the replayer was slower than real time
-				// (whether the timer fired before its own duration had passed is judged separately: "early")
-				kind = "overrun"
+				// the real timer fired before the script's clock allowed it: the replayer was slower than real time, or
+				// the script is a lead of the old protocol whose timer was re-armed (whether the timer fired before its
+				// own duration had passed is judged separately: "early")
+				kind = "timerfirst"
 			}
 			return &divergence{step, kind, fmt.Sprintf("%s expected in its select, is %s", r.name, r.where())}
 		}
@@ -518,7 +531,7 @@ func (ex *vExec) settle(step int, o *vObs, blockedBefore map[string]bool) *diver
 	var all []rl
 	all = append(all, rl{ex.run, locRun(o)})
 	for i, r := range ex.cs {
-		all = append(all, rl{r, locConn(o, i)})
+		all = append(all, rl{r, locConn(o, i, ex.fsh)})
 	}
 	for i, r := range ex.ws {
 		all = append(all, rl{r, locWaiter(o, i)})
@@ -707,7 +720,10 @@ func (ex *vExec) exec(sc *vScript) vM {
 			}
 		}
 		dv = ex.step(i, st)
-		if dv == nil {
+		// in the publish-after-unlock variant a send that has room follows by itself: compare after it
+		eagerSend := ex.fsh && ((i+1 < len(sc.Steps) && sc.Steps[i+1].A == "SmhSend") ||
+			(i+1 == len(sc.Steps) && st.A == "SmhSet")) // a script cut right after SmhSet: the send is not in it
+		if dv == nil && !eagerSend {
 			dv = ex.settle(i, &st.O, blocked)
 		}
 		if dv != nil {
@@ -816,6 +832,9 @@ func (ex *vExec) step(i int, st *vStep) *divergence {
 	case "SmhSet":
 		return ex.openAt(i, ex.cs[st.K-1], "smh.locked")
 	case "SmhSend":
+		if ex.fsh {
+			return nil // the real goroutine sends by itself once there is room; settle() checks it returned
+		}
 		return ex.openAt(i, ex.cs[st.K-1], "smh.send")
 	case "Flip":
 		c := ex.conns[st.K-1]
@@ -911,7 +930,7 @@ func (ex *vExec) finale(late *[]lateObs) *hangObs {
 				if base.IsZero() {
 					base = time.Now()
 				}
-				// as implemented a stale head re-arms the timer; allow a few re-arms before calling it a hang
+				// before the timer repair a stale head re-armed the timer; allow a few re-arms before calling it a hang
 				if h := base.Add(4*r.tmo + ex.slack); h.After(horizon) {
 					horizon = h
 				}
@@ -1094,7 +1113,8 @@ func TestVerifGate(t *testing.T) {
 				res["attempts"] = attempt
 				d, _ := res["divergence"].(vM)
 				// Go's map order and a slow machine are not the code's behaviour: try again
-				if d == nil || (d["kind"] != "maporder" && d["kind"] != "overrun") || res["hang"] != nil {
+				retry := d != nil && (d["kind"] == "maporder" || d["kind"] == "overrun" || (d["kind"] == "timerfirst" && sc.Fsh))
+				if !retry || res["hang"] != nil {
 					break
 				}
 			}
